@@ -111,6 +111,26 @@ func checkC02(c *fw.Ctx) {
 				continue
 			}
 			_, isConst := fw.ConstStringsIn(args[1], dc.Fr)
+			if !isConst {
+				// a path that is a captured variable or a parameter which the frames do not resolve (a
+				// step made by a factory, a generic pipeline) is not known to be computed from data
+				pvv := fw.Unwrap(args[1])
+				if u, isU := pvv.(*ssa.UnOp); isU && u.Op == token.MUL {
+					if fv, isFv := u.X.(*ssa.FreeVar); isFv {
+						pvv = fv // a variable captured by reference
+					}
+				}
+				switch pv := pvv.(type) {
+				case *ssa.FreeVar:
+					c.Undecided("2 message", name+": JSON paths are constants", "the path given to "+fw.CalleeName(dc.Call)+" is the captured variable "+pv.Name()+" ("+c.P.Pos(dc.Call.Pos())+")")
+					continue
+				case *ssa.Parameter:
+					if _, resolved := dc.Fr.ArgOf(pv); !resolved {
+						c.Undecided("2 message", name+": JSON paths are constants", "the path given to "+fw.CalleeName(dc.Call)+" is the parameter "+pv.Name()+" of a routine whose call site is not resolved ("+c.P.Pos(dc.Call.Pos())+")")
+						continue
+					}
+				}
+			}
 			c.Check(isConst, "2 message", name+": JSON paths are constants", c.P.Pos(dc.Call.Pos()), "", fw.CalleeName(dc.Call)+" is called with a non-constant path: member names containing '.', '*' or '?' are interpreted as paths, so the signed and the verified projection differ")
 		}
 	}
